@@ -1394,6 +1394,10 @@ read_blob_attr(kdump_ctx_t *ctx, unsigned fidx, off_t off, size_t size,
 	struct fcache_chunk fch;
 	kdump_status ret;
 
+	ret = check_file_extent(ctx, fidx, off, size, desc);
+	if (ret != KDUMP_OK)
+		return ret;
+
 	ret = flatmap_get_chunk(ctx->shared->flatmap, &fch, size, fidx, off);
 	if (ret != KDUMP_OK)
 		return set_error(ctx, ret,
